@@ -1,54 +1,67 @@
 ------------------------------ MODULE LazyVar ------------------------------
-(* The lazily evaluated element variable of src/ark_curve/r1cs/lazy.rs as a   *)
-(* state machine.  A variable is created from an encoding or from an element; *)
-(* ForceElement / ForceEncoding are the two accessors.  The model checks, for *)
-(* every sequence of accessor calls (bounded by MaxCalls): the value pair     *)
-(* never changes once set; constraints are emitted only on the single         *)
-(* transition into "Both"; the `unreachable!()` arms are unreachable.  It is  *)
-(* also the behaviour generator of the plan replayed into the real gadget     *)
-(* (history variable `calls`, hidden from the state space by a VIEW).         *)
-EXTENDS Naturals, Sequences, TLC, Json, IOUtils
-CONSTANTS MaxCalls, CostDecode, CostEncode
-VARIABLES st, hasEnc, hasElt, ncons, transitions, calls, unreachable
-vars == <<st, hasEnc, hasElt, ncons, transitions, calls, unreachable>>
-view == <<st, hasEnc, hasElt, ncons, transitions, Len(calls), unreachable>>
+(* The lazily evaluated element variable of src/ark_curve/r1cs/lazy.rs (as used *)
+(* through r1cs/element.rs and ops.rs) as a state machine.  A variable is       *)
+(* created from an encoding or from an element; ForceElement / ForceEncoding /  *)
+(* ReadValue are the accessors; Mutate is any in-place group operation          *)
+(* (double_in_place, +=, -=, x = x.negate()), which forces the element, computes *)
+(* a NEW element and must start a fresh cache: the variable then holds only the *)
+(* new element.                                                                 *)
+(* The model checks, for every sequence of calls (bounded by MaxCalls):         *)
+(*   - cache coherence: a cached encoding / element always belongs to the       *)
+(*     CURRENT value (epoch) of the variable;                                   *)
+(*   - constraints are emitted only on the single transition into "Both" of     *)
+(*     each epoch (and by the mutation itself);                                 *)
+(*   - the `unreachable!()` arms are unreachable.                               *)
+(* It is also the behaviour generator of the plan replayed into the real gadget *)
+(* (history variable `calls`, hidden from the state space by a VIEW).           *)
+EXTENDS Naturals, Sequences, TLC
+CONSTANTS MaxCalls, CostDecode, CostEncode, CostMutate, Mutators
+VARIABLES st, epoch, encEpoch, eltEpoch, ncons, transitions, calls, unreachable
+vars == <<st, epoch, encEpoch, eltEpoch, ncons, transitions, calls, unreachable>>
+view == <<st, epoch, encEpoch, eltEpoch, transitions, Len(calls), unreachable>>
+None == 99
+HasEnc == encEpoch # None
+HasElt == eltEpoch # None
 
 Init == /\ st \in {"Encoding", "Element"}
-        /\ hasEnc = (st = "Encoding") /\ hasElt = (st = "Element")
+        /\ epoch = 0
+        /\ encEpoch = (IF st = "Encoding" THEN 0 ELSE None) /\ eltEpoch = (IF st = "Element" THEN 0 ELSE None)
         /\ ncons = 0 /\ transitions = 0 /\ calls = <<>> /\ unreachable = FALSE
 \* element(): if Encoding, decompress and move to Both; then return the element
-ForceElement ==
-  /\ Len(calls) < MaxCalls
-  /\ IF st = "Encoding"
-     THEN st' = "Both" /\ hasElt' = TRUE /\ ncons' = ncons + CostDecode /\ transitions' = transitions + 1
-     ELSE UNCHANGED <<st, hasElt, ncons, transitions>>
-  /\ unreachable' = (unreachable \/ st' = "Encoding")         \* the arm `Inner::Encoding(_) => unreachable!()`
-  /\ calls' = Append(calls, "E") /\ UNCHANGED hasEnc
+ForceElt == IF st = "Encoding"
+            THEN st' = "Both" /\ eltEpoch' = epoch /\ ncons' = ncons + CostDecode /\ transitions' = transitions + 1
+            ELSE UNCHANGED <<st, eltEpoch, ncons, transitions>>
+ForceElement == /\ Len(calls) < MaxCalls /\ ForceElt
+                /\ unreachable' = (unreachable \/ st' = "Encoding")       \* the arm `Inner::Encoding(_) => unreachable!()`
+                /\ calls' = Append(calls, "E") /\ UNCHANGED <<epoch, encEpoch>>
+ReadValue ==    /\ Len(calls) < MaxCalls /\ ForceElt
+                /\ unreachable' = (unreachable \/ st' = "Encoding")
+                /\ calls' = Append(calls, "V") /\ UNCHANGED <<epoch, encEpoch>>
 \* encoding(): if Element, compress and move to Both; then return the encoding
-ForceEncoding ==
-  /\ Len(calls) < MaxCalls
-  /\ IF st = "Element"
-     THEN st' = "Both" /\ hasEnc' = TRUE /\ ncons' = ncons + CostEncode /\ transitions' = transitions + 1
-     ELSE UNCHANGED <<st, hasEnc, ncons, transitions>>
-  /\ unreachable' = (unreachable \/ st' = "Element")
-  /\ calls' = Append(calls, "C") /\ UNCHANGED hasElt
-\* value(): reads the element (forces it), emits nothing itself
-ReadValue ==
-  /\ Len(calls) < MaxCalls
-  /\ IF st = "Encoding"
-     THEN st' = "Both" /\ hasElt' = TRUE /\ ncons' = ncons + CostDecode /\ transitions' = transitions + 1
-     ELSE UNCHANGED <<st, hasElt, ncons, transitions>>
-  /\ unreachable' = (unreachable \/ st' = "Encoding")
-  /\ calls' = Append(calls, "V") /\ UNCHANGED hasEnc
-Next == ForceElement \/ ForceEncoding \/ ReadValue
+ForceEncoding == /\ Len(calls) < MaxCalls
+                 /\ IF st = "Element"
+                    THEN st' = "Both" /\ encEpoch' = epoch /\ ncons' = ncons + CostEncode /\ transitions' = transitions + 1
+                    ELSE UNCHANGED <<st, encEpoch, ncons, transitions>>
+                 /\ unreachable' = (unreachable \/ st' = "Element")
+                 /\ calls' = Append(calls, "C") /\ UNCHANGED <<epoch, eltEpoch>>
+\* an in-place group operation: force the element, compute the new one, start a fresh variable holding it
+Mutate(m) == /\ Len(calls) < MaxCalls
+             /\ epoch' = epoch + 1
+             /\ st' = "Element" /\ eltEpoch' = epoch + 1 /\ encEpoch' = None
+             /\ ncons' = ncons + (IF st = "Encoding" THEN CostDecode ELSE 0) + CostMutate
+             /\ transitions' = 0
+             /\ calls' = Append(calls, m) /\ UNCHANGED unreachable
+Next == ForceElement \/ ForceEncoding \/ ReadValue \/ (\E m \in Mutators : Mutate(m))
 Spec == Init /\ [][Next]_vars
 
-TypeOK == st \in {"Encoding", "Element", "Both"} /\ ncons \in {0, CostDecode, CostEncode}
+TypeOK == st \in {"Encoding", "Element", "Both"}
 NoUnreachable == ~unreachable
-OnceOnly == transitions <= 1 /\ (transitions = 1 <=> st = "Both")
-PairComplete == (st = "Both") => (hasEnc /\ hasElt)
-\* values never change once set: a present component stays present (action property)
-Monotone == [][(hasEnc => hasEnc') /\ (hasElt => hasElt') /\ ncons' >= ncons]_vars
+OnceOnly == transitions <= 1 /\ (transitions = 1 => st = "Both")
+PairComplete == (st = "Both") => (HasEnc /\ HasElt)
+\* what the accessors return is the cached component: it must belong to the current value
+CacheCoherent == (HasEnc => encEpoch = epoch) /\ (HasElt => eltEpoch = epoch)
+StateMatches == /\ (st = "Encoding") => (HasEnc /\ ~HasElt)
+                /\ (st = "Element") => (HasElt /\ ~HasEnc)
 \* every complete behaviour is written out as one plan line (spec -> implementation direction)
 RECURSIVE Join(_)
 Join(s) == IF s = <<>> THEN "" ELSE Head(s) \o Join(Tail(s))
